@@ -39,11 +39,12 @@ EPS = 1e-8
 
 def gate_table():
     from bqskit.ir.gates import (HGate, XGate, TGate, SGate, SXGate, RZGate, RXGate, RYGate, U3Gate, CNOTGate,
-                                 CZGate, SwapGate, CCXGate, ZGate, YGate, ISwapGate, U1Gate)
+                                 CZGate, SwapGate, CCXGate, ZGate, YGate, ISwapGate, U1Gate, U1qPiGate, U1qPi2Gate)
     return {
         'h': HGate(), 'x': XGate(), 'y': YGate(), 'z': ZGate(), 't': TGate(), 's': SGate(), 'sx': SXGate(),
         'rz': RZGate(), 'rx': RXGate(), 'ry': RYGate(), 'u3': U3Gate(), 'u1': U1Gate(), 'cx': CNOTGate(),
-        'cz': CZGate(), 'swap': SwapGate(), 'ccx': CCXGate(), 'iswap': ISwapGate(),
+        'cz': CZGate(), 'swap': SwapGate(), 'ccx': CCXGate(), 'iswap': ISwapGate(), 'u1qpi': U1qPiGate,
+        'u1qpi2': U1qPi2Gate,
     }
 
 
@@ -55,6 +56,8 @@ GATESETS = {
     'ccx': ['ccx', 'cx', 'u3'],
     'constsq': ['cx', 'h', 't'],
     'nosq': ['cx'],
+    'rzonly': ['cx', 'rz'], 'rxonly': ['cx', 'rx'], 'u1rx': ['cx', 'u1', 'rx'], 'u1sx': ['cx', 'u1', 'sx'],
+    'rzry': ['cx', 'rz', 'ry'], 'h1like': ['cx', 'rz', 'u1qpi', 'u1qpi2'],
 }
 
 
